@@ -41,7 +41,11 @@ Literals == /\ LimbsOf(DecodeBitMasks(1, 0, 0, 64)) = <<1, 0, 0, 0>>            
             /\ LimbsOf(VFPExpandImm(0, 64)) = <<0, 0, 0, 16384>>                           \* 2.0
             /\ FPNumber(112) = <<0, 16, 0>> /\ FPNumber(0) = <<0, 16, 1>> /\ FPNumber(64) = <<0, 16, 0 - 3>> /\ FPNumber(63) = <<0, 31, 4>>
 
+FPCandInverse == /\ \A N \in {16, 32, 64} : \A i \in 0..255 : FPCand(VFPExpandImm(i, N), N) = i
+                 /\ \A N \in {16, 32, 64} : \A v \in FPSet(N) : FPMember(v, N)
+                 /\ ~FPMember(<<0, 0, 0, 0>>, 64) /\ ~FPMember(<<0, 0, 0, 32768>>, 64) /\ ~FPMember(<<0, 16256, 1, 0>>, 32) /\ ~FPMember(<<1, 0, 0, 16368>>, 64)
 ASSUME Counts
+ASSUME FPCandInverse
 ASSUME FPSameNumber
 ASSUME FPShape
 ASSUME Literals
